@@ -36,7 +36,7 @@ func zzFoldLowestSpec(pre *DenseStore, preEmpty bool, N int, i int, c float64, p
 }
 
 func zzC05LowestAdd(N int) {
-	zzvBound("maxNumBins N", "N in {1,2,3,4} (quick), array fully symbolic; index base unconstrained in int32, new index within the concretisation cap of the window")
+	zzvBound("maxNumBins N", "N in {1,2,3,4} (quick; 8 and 16 thorough), array fully symbolic; index base unconstrained in int32, new index within the concretisation cap of the window")
 	emptyPre := zzvChoose("preEmpty", 2) == 1
 	L := N
 	if emptyPre {
@@ -65,6 +65,8 @@ func ZZ_C05_lowest_add_N1() { zzC05LowestAdd(1) }
 func ZZ_C05_lowest_add_N2() { zzC05LowestAdd(2) }
 func ZZ_C05_lowest_add_N3() { zzC05LowestAdd(3) }
 func ZZ_C05_lowest_add_N4() { zzC05LowestAdd(4) }
+func ZZ_C05_lowest_add_N8_T()  { zzC05LowestAdd(8) }
+func ZZ_C05_lowest_add_N16_T() { zzC05LowestAdd(16) }
 
 // ---------- highest-collapsing ----------
 
@@ -96,7 +98,7 @@ func zzFoldHighestSpec(pre *DenseStore, preEmpty bool, N int, i int, c float64, 
 }
 
 func zzC05HighestAdd(N int) {
-	zzvBound("maxNumBins N", "N in {1,2,3,4} (quick), array fully symbolic; index base unconstrained in int32, new index within 24 of the window")
+	zzvBound("maxNumBins N", "N in {1,2,3,4} (quick; 8 and 16 thorough), array fully symbolic; index base unconstrained in int32, new index within 24 of the window")
 	emptyPre := zzvChoose("preEmpty", 2) == 1
 	L := N
 	if emptyPre {
@@ -124,6 +126,8 @@ func ZZ_C05_highest_add_N1() { zzC05HighestAdd(1) }
 func ZZ_C05_highest_add_N2() { zzC05HighestAdd(2) }
 func ZZ_C05_highest_add_N3() { zzC05HighestAdd(3) }
 func ZZ_C05_highest_add_N4() { zzC05HighestAdd(4) }
+func ZZ_C05_highest_add_N8_T()  { zzC05HighestAdd(8) }
+func ZZ_C05_highest_add_N16_T() { zzC05HighestAdd(16) }
 
 // ---------- same-kind merges: every pair (N_receiver, N_argument) ----------
 
@@ -139,7 +143,7 @@ func zzSameDense(a *DenseStore, b *DenseStore) bool {
 }
 
 func zzC05LowestMerge(Nr, Na int) {
-	zzvBound("bin limits", "receiver N and argument N each in {1,2,3} (quick); receiver empty/cleared or full-array state; argument non-empty or empty; windows within 12 of each other")
+	zzvBound("bin limits", "receiver N and argument N each in {1,2,3} (quick; pairs up to (6,3),(2,6),(4,4) thorough); receiver empty/cleared or full-array state; argument non-empty or empty; windows within 12 of each other")
 	emptyR := zzvChoose("receiverEmpty", 2) == 1
 	emptyA := zzvChoose("argumentEmpty", 2) == 1
 	Lr, La := Nr, Na
@@ -198,9 +202,12 @@ func ZZ_C05_lowest_merge_2_3() { zzC05LowestMerge(2, 3) }
 func ZZ_C05_lowest_merge_3_1() { zzC05LowestMerge(3, 1) }
 func ZZ_C05_lowest_merge_3_2() { zzC05LowestMerge(3, 2) }
 func ZZ_C05_lowest_merge_3_3() { zzC05LowestMerge(3, 3) }
+func ZZ_C05_lowest_merge_4_4_T() { zzC05LowestMerge(4, 4) }
+func ZZ_C05_lowest_merge_6_3_T() { zzC05LowestMerge(6, 3) }
+func ZZ_C05_lowest_merge_2_6_T() { zzC05LowestMerge(2, 6) }
 
 func zzC05HighestMerge(Nr, Na int) {
-	zzvBound("bin limits", "receiver N and argument N each in {1,2,3} (quick); receiver empty/cleared or full-array state; argument non-empty or empty; windows within 12 of each other")
+	zzvBound("bin limits", "receiver N and argument N each in {1,2,3} (quick; pairs up to (6,3),(2,6),(4,4) thorough); receiver empty/cleared or full-array state; argument non-empty or empty; windows within 12 of each other")
 	emptyR := zzvChoose("receiverEmpty", 2) == 1
 	emptyA := zzvChoose("argumentEmpty", 2) == 1
 	Lr, La := Nr, Na
@@ -257,3 +264,6 @@ func ZZ_C05_highest_merge_2_3() { zzC05HighestMerge(2, 3) }
 func ZZ_C05_highest_merge_3_1() { zzC05HighestMerge(3, 1) }
 func ZZ_C05_highest_merge_3_2() { zzC05HighestMerge(3, 2) }
 func ZZ_C05_highest_merge_3_3() { zzC05HighestMerge(3, 3) }
+func ZZ_C05_highest_merge_4_4_T() { zzC05HighestMerge(4, 4) }
+func ZZ_C05_highest_merge_6_3_T() { zzC05HighestMerge(6, 3) }
+func ZZ_C05_highest_merge_2_6_T() { zzC05HighestMerge(2, 6) }
